@@ -138,6 +138,8 @@ type VC struct {
 	inl         *inlineFrame    // non-nil while the body of a contract-less callee is executed in place
 	inlDepth    int
 	atUsed      map[*AtCall]bool
+	callRes     map[string][]SVal // results of the calls executed so far, by "k:callee"
+	callResBlock map[string]*ssa.BasicBlock
 }
 
 type mapIter struct {
